@@ -9,7 +9,7 @@ Stores the change under /verif/seeded/<id>/ with the results added to meta.json.
 import json, os, shutil, subprocess, sys
 
 def sh(cmd, **kw):
-    return subprocess.run(cmd, shell=True, capture_output=True, text=True, **kw)
+    return subprocess.run(cmd, shell=True, capture_output=True, text=True, errors="replace", **kw)
 
 def main():
     src, sid = sys.argv[1], sys.argv[2]
